@@ -1,6 +1,7 @@
 package main
 
 import (
+	"errors"
 	"fmt"
 	"math"
 	"strconv"
@@ -137,7 +138,7 @@ func checkG(v Val, d Directive, out string) string {
 		return "sign not asked for"
 	}
 	got, err := strconv.ParseFloat(body, 64)
-	if err != nil {
+	if err != nil && !errors.Is(err, strconv.ErrRange) { // "2e+308" (MaxFloat64 at one digit) reads back as +Inf, like the reference
 		return "rendering does not read back as a number (" + err.Error() + ")"
 	}
 	ok := false
@@ -188,6 +189,10 @@ func checkWidth(d Directive, out, natural string, padChars string) string {
 	}
 	for _, pc := range padChars {
 		if out == strings.Repeat(string(pc), n)+natural {
+			return ""
+		}
+		// zero padding of a number goes between the sign and the digits, as in C printf
+		if pc == '0' && natural != "" && strings.IndexByte("+- ", natural[0]) >= 0 && out == natural[:1]+strings.Repeat("0", n)+natural[1:] {
 			return ""
 		}
 	}
